@@ -34,6 +34,24 @@ def oracle_noop(rng, desc, out):
     try:
         p = solvercase.build_problem(desc)
         p.resolve_constraints()
+        if rng.random() < 0.3:
+            # the solved sequence is given to a new problem whose specification objects were used before on another
+            # sequence: every constraint passes on it (decided on the fresh objects above), so nothing may happen
+            solved = p.sequence
+            if not all(c.evaluate(p).passes for c in p.constraints):
+                return 0
+            d2 = dict(desc, sequence=solved, reuse_after=hard.rand_seq(rng, len(solved)))
+            p = solvercase.build_problem(d2)
+            if p.sequence != solved:
+                return 0      # construction itself rewrote it (a hard restriction refers to the sequence): other oracle
+            try:
+                state = np.random.get_state()
+                p.resolve_constraints()
+                if p.sequence != solved or not rng_state_equal(state, np.random.get_state()):
+                    out.append(dict(kind="resolve-not-noop", input=dict(desc=d2), detail="%s -> %s (specification objects reused)" % (solved, p.sequence)))
+            except Exception as e:
+                out.append(dict(kind="noop-resolve-raised", input=dict(desc=d2), detail="all constraints pass on %s, yet %s" % (solved, repr(e)[:150])))
+            return 1
     except Exception:
         return 0
     n = 0
